@@ -74,6 +74,9 @@ type world struct {
 	parseErr     error
 	evJSON       []byte // the built event without signatures
 	crossChecked bool
+	resp         map[string]*keyResp           // key responses of the servers whose keys are fetched for real
+	privs        map[string]ed25519.PrivateKey // public key -> private key (to sign the key responses)
+	forged       map[string]gmsl.ServerKeys    // asked server -> forged answer
 }
 
 // signingName / key material of abstract server s in this scenario. In pseudo-ID rooms s1 and s2 (when it is the
@@ -136,8 +139,12 @@ func (d *memDB) put(server string, id gmsl.KeyID, pub ed25519.PublicKey, validUn
 // putKey registers a key of abstract server s where the scenario says its keys are; with a volunteering fetcher
 // every database-held key also has an unexpired copy, valid for a day from now, at the fetcher.
 func (w *world) putKey(s, server string, id gmsl.KeyID, p ed25519.PublicKey, validUntil, expired int64) {
-	if w.r.Src[s] == "fetcher" {
+	switch w.r.Src[s] {
+	case "fetcher":
 		w.fetch.put(server, id, p, validUntil, expired)
+		return
+	case "direct", "persp":
+		w.respFor(server, id, p, validUntil, expired)
 		return
 	}
 	w.db.put(server, id, p, validUntil, expired)
@@ -324,6 +331,10 @@ func (w *world) signaturesFor(impl gmsl.IRoomVersion, evJSON []byte, s, state st
 		k1 = pseudoKey(s)
 		id1, id2 = "ed25519:1", "ed25519:2"
 	}
+	if w.privs == nil {
+		w.privs = map[string]ed25519.PrivateKey{}
+	}
+	w.privs[string(pub(k1))], w.privs[string(pub(k2))] = k1, k2
 	// validity of the server's current key: comfortably around origin_server_ts
 	vu := w.ts + hour
 	if w.r.TM != "normal" {
@@ -401,6 +412,32 @@ func (w *world) signaturesFor(impl gmsl.IRoomVersion, evJSON []byte, s, state st
 	case "wrongkey":
 		current(id1, k1)
 		return []sigEntry{good(id1, keyFromTag(s+"/intruder"))}
+	case "vouched":
+		// the server has its ordinary key; the event carries a signature under its name made by another party
+		// under a key ID of that party's choosing, and another required server's key response vouches for it
+		current(id1, k1)
+		forger := keyFromTag(s + "/forger")
+		var accomplice string
+		var req []string // the other servers that sign
+		for t, st := range w.r.Sig {
+			if st != "absent" {
+				req = append(req, t)
+			}
+		}
+		sort.Strings(req)
+		for _, t := range req {
+			if t != s && (accomplice == "" || (w.r.Src[accomplice] != "db" && w.r.Src[t] == "db")) {
+				accomplice = t
+			}
+		}
+		if accomplice == "" {
+			panic("harness: a vouched signature needs a second required server")
+		}
+		if w.forged == nil {
+			w.forged = map[string]gmsl.ServerKeys{}
+		}
+		w.forged[w.nameOf(accomplice)] = w.forgedResp(name, "ed25519:kx", forger)
+		return []sigEntry{good("ed25519:kx", forger)}
 	case "unknownkey":
 		current(id1, k1)
 		return []sigEntry{good("ed25519:k9", keyFromTag(s+"/k9"))}
@@ -637,13 +674,17 @@ func class(r *rec) string {
 	_ = other
 	keys := ""
 	var fromFetcher []string
+	kindOfFetcher := ""
 	for _, s := range req {
-		if r.Src[s] == "fetcher" {
+		if r.Src[s] != "db" && r.Src[s] != "" {
 			fromFetcher = append(fromFetcher, s)
+			if r.Src[s] != "fetcher" {
+				kindOfFetcher = "(" + r.Src[s] + ")"
+			}
 		}
 	}
 	if len(fromFetcher) > 0 || r.Vol {
-		keys = fmt.Sprintf("/keys-at-fetcher=%d-of-%d", len(fromFetcher), len(req))
+		keys = fmt.Sprintf("/keys-at-fetcher%s=%d-of-%d", kindOfFetcher, len(fromFetcher), len(req))
 		if r.Vol {
 			keys += "+volunteering"
 		}
@@ -697,6 +738,7 @@ func replayOne(i int, raw json.RawMessage, seed int64) hx.Result {
 	if w.fetch != nil {
 		ring.KeyFetchers = []gmsl.KeyFetcher{w.fetch}
 	}
+	ring.KeyFetchers = append(ring.KeyFetchers, w.realFetchers()...)
 	ctx := context.Background()
 	if p == nil {
 		return hx.Result{OK: false, NT: cls, Key: "C06/received/parse-error/" + cls,
@@ -742,6 +784,11 @@ func (w *world) twins(impl gmsl.IRoomVersion, ring gmsl.KeyRing, p gmsl.PDU, cls
 	r := w.r
 	if r.TM != "normal" || (r.Fail != "" && r.Fail != "none") || (r.MapSt != "" && r.MapSt != "ok") || others(r) != "absent" {
 		return nil
+	}
+	for _, st := range r.Sig {
+		if st == "vouched" {
+			return nil // the accomplice's forged key response stays in place: its own keys may be out of reach
+		}
 	}
 	states := map[string]string{}
 	if r.Verdict {
